@@ -64,6 +64,7 @@ class TableKeyParameter(Parameter):
     def __post_init__(self) -> None:
         self._table: Table
         self._table_row: Optional[TableRow] = None
+        self._is_used_by_table_struct = True
 
     @property
     @override
@@ -122,6 +123,18 @@ class TableKeyParameter(Parameter):
             else:
                 self._table_row = resolve_snref(self.table_row_snref, self._table.table_rows)
 
+        if context.parameters is not None:
+            # the value of a table key can only be determined
+            # implicitly if it is used by a TABLE-STRUCT parameter
+            self._is_used_by_table_struct = False
+            for p in context.parameters:
+                if p.parameter_type != "TABLE-STRUCT":
+                    continue
+                tk_ref = getattr(p, "table_key_ref", None)
+                if getattr(p, "table_key_snref", None) == self.short_name or \
+                   (tk_ref is not None and tk_ref.ref_id == self.odx_id.local_id):
+                    self._is_used_by_table_struct = True
+
     @property
     def table(self) -> "Table":
         return self._table
@@ -134,8 +147,9 @@ class TableKeyParameter(Parameter):
     @override
     def is_required(self) -> bool:
         # TABLE-KEY parameters can be implicitly determined from the
-        # corresponding TABLE-STRUCT
-        return False
+        # corresponding TABLE-STRUCT or by the statically selected
+        # table row
+        return self._table_row is None and not self._is_used_by_table_struct
 
     @property
     @override
